@@ -47,3 +47,33 @@ Proof.
   - unfold count_lt. rewrite count_lt_zero. reflexivity.
   - lia.
 Qed.
+
+(* ---- the total, bad stripes included: the share plus at most the bad stripes ---- *)
+Definition count_sel_all (infos : list N) (sel : list bool) : nat := countf (fun p : N * bool => snd p) (combine infos sel).
+Definition count_bad (infos : list N) : nat := countf info_get_bad infos.
+
+Lemma sel_all_split (l : list (N * bool)) :
+  (countf (fun p => snd p) l <= countf sel_good l + countf (fun p => info_get_bad (fst p)) l)%nat.
+Proof.
+  unfold countf. induction l as [|[i b] r IH]; simpl; [lia|].
+  unfold sel_good at 1. simpl. destruct b, (info_get_bad i); simpl; lia.
+Qed.
+
+Lemma bad_combine_le : forall infos (sel : list bool),
+  (countf (fun p : N * bool => info_get_bad (fst p)) (combine infos sel) <= countf info_get_bad infos)%nat.
+Proof.
+  unfold countf. induction infos as [|i r IH]; intros sel; simpl; [lia|].
+  destruct sel as [|b sr]; simpl; [destruct (info_get_bad i); simpl; lia|].
+  specialize (IH sr). destruct (info_get_bad i); simpl; lia.
+Qed.
+
+Lemma auto_total_bound t arg older now infos cl tl ll :
+  scrub_limits t arg older now infos = Lim SCRUB_AUTO cl tl ll ->
+  (count_sel_all infos (scrub_selected SCRUB_AUTO tl ll infos) <= N.to_nat cl + count_bad infos)%nat.
+Proof.
+  intro Hl. destruct (auto_count_bound _ _ _ _ _ _ _ _ Hl) as [H1 _].
+  unfold count_sel_all, count_bad.
+  pose proof (sel_all_split (combine infos (scrub_selected SCRUB_AUTO tl ll infos))) as H2.
+  pose proof (bad_combine_le infos (scrub_selected SCRUB_AUTO tl ll infos)) as H3.
+  unfold count_sel_good in H1. lia.
+Qed.
